@@ -468,7 +468,8 @@ func (vc *FuncVC) mapDelete(st *State, m, k Term, mt *types.Map) {
 	ds := ArraySort(ks, SBool)
 	oldD := vc.cur(st, dk)
 	oldDom := Select(oldD, m, ds)
-	vc.setVersion(st, dk, Store(oldD, m, Store(oldDom, k, False)))
+	// delete on a nil map is a no-op (the nil map keeps its empty domain)
+	vc.setVersion(st, dk, Ite(Eq(m, Null), oldD, Store(oldD, m, Store(oldDom, k, False))))
 	card := vc.cardFn(ks)
 	newDom := Select(vc.cur(st, dk), m, ds)
 	vc.emit("(assert (= (%s %s) (- (%s %s) (ite %s 1 0))))", card, newDom.S, card, oldDom.S, Select(oldDom, k, SBool).S)
